@@ -415,6 +415,32 @@ def sourceOf (r : Registry) (t : Tmpl) : Option Str := (infoOf r t).map (·.sour
 /-- `Template.code` -/
 def codeOf (r : Registry) (t : Tmpl) : Option Str := (infoOf r t).map (·.code)
 
+/-! ### `ModuleInfo.code` on the module-file path: a read of the file at access time
+
+`ModuleInfo.code`: `module_source` if it is not `None`, else `util.read_python_file(self.module_filename)`.  The
+module file is rewritten in place whenever the template is regenerated, so the answer must be a function of the file
+system *at the time of the access*. -/
+
+/-- the file system: path ↦ (decoded) content -/
+abbrev FS := List (Str × Str)
+
+/-- a history of (re)writes of files, oldest first: `_compile_module_file` moving a new module into place -/
+def applyWrites (fs : FS) (ws : List (Str × Str)) : FS := dupdate fs ws
+
+/-- what a `ModuleInfo` holds for `code`: the text (text path, in-memory file path) or only the module file name -/
+structure CodeRef where
+  moduleSource : Option Str
+  moduleFile : Option Str
+deriving DecidableEq, Repr
+
+/-- `ModuleInfo.code` evaluated against the file system `fs` (`none` = the read fails) -/
+def CodeRef.code (fs : FS) (r : CodeRef) : Option Str :=
+  match r.moduleSource with
+  | some c => some c
+  | none => match r.moduleFile with
+    | some p => get fs p
+    | none => none
+
 /-! ## (d) `_kwargs_for_callable`, `has_def`, `list_defs` -/
 
 /-- `compat.inspect_getargspec(callable_)`: positional-or-keyword names (`co_varnames[:co_argcount]`), the `*name`,
